@@ -4,7 +4,7 @@ import ast
 from ..core import sym
 from ..core.expand import u, call_name, get_arg, bind_args, Expander, is_marker, phi_alternatives
 from ..core.loader import Inconclusive, const_value, parents, walk_scope
-from .common import (returns, all_nodes, callee, strip_shape, calls_in, guards_of, stmt_of, loops_around, kw,
+from .common import (literal_nf, returns, all_nodes, callee, strip_shape, calls_in, guards_of, stmt_of, loops_around, kw,
                      find_assignments, in_loop)
 
 EXPLANATION = (
@@ -61,8 +61,9 @@ def rule_writers(ck):
                             continue
                         n += 1
                         o = ck.ob('C13-D1.writer', f, node, node)
-                        if inside and f.node.name in WRITERS:
-                            o.ok('%s may write %s' % (f.node.name, x.attr))
+                        fname_ = f.qualname.split('.')[-1]      # the name the method had on the reference tree
+                        if inside and fname_ in WRITERS:
+                            o.ok('%s may write %s' % (fname_, x.attr))
                         else:
                             o.fail('`%s` writes the iteration state `%s` of a catalog forecast from %s: the state machine of '
                                    'CatalogForecast is no longer closed over its own four writers' % (u(node)[:60], x.attr, f.short))
@@ -238,7 +239,8 @@ def rule_getters(ck):
         o.fail('the accumulation loop can stop early')
     else:
         o.ok()
-    reg = [s for s in lp.body if isinstance(s, ast.Assign) and isinstance(s.targets[0], ast.Attribute) and s.targets[0].attr == 'region' and u(s.value) == 'self.region']
+    reg = [s for s in lp.body if isinstance(s, ast.Assign) and isinstance(s.targets[0], ast.Attribute) and s.targets[0].attr == 'region'
+           and u(Expander(P, f, expand_self=False).expand(s.value)) == 'self.region']
     cnt = [x for x in body if isinstance(x, ast.Call) and isinstance(x.func, ast.Attribute) and x.func.attr == 'spatial_magnitude_counts']
     o = ck.ob('C13-D7.region', f, reg[0] if reg else 'cat.region = self.region', reg[0] if reg else lp)
     good = bool(reg) and bool(cnt) and reg[0].lineno < cnt[0].lineno and u(reg[0].targets[0].value) == u(cnt[0].func.value)
@@ -263,7 +265,9 @@ def rule_getters(ck):
     ok = False
     if len(lps) == 1:
         gs = guards_of(lps[0], g.node)
-        ok = len(gs) == 1 and gs[0][1] and N.nf(gs[0][0]) in (N.nf('len(self._event_counts) == 0'), N.nf('not self._event_counts'))
+        want = (N.nf('len(self._event_counts) == 0'), N.nf('not self._event_counts'))
+        ok = len(gs) == 1 and (literal_nf(N, gs[0][0], gs[0][1]) in want or
+                               (not gs[0][1] and u(gs[0][0]) in ('self._event_counts', 'len(self._event_counts)')))
     (o.ok('iterates only when no counts are recorded') if ok else o.fail('get_event_counts iterates unconditionally / under another condition'))
     r = [x for x in returns(g) if x.value is not None]
     o = ck.ob('C13-D8.ret', g, r[0].value if r else 'return', r[0] if r else g.node)
